@@ -375,7 +375,7 @@ class Speller:
             bad = self.fault_done and self.fault and self.fault[0] == 'bad_colour' and not getattr(self, '_bc', False)
             if bad:
                 self._bc = True
-            hs.append(self.kw('headercolor:') + self.sp() + (self.rng.choice(['#ggg', '#ff', '# fff', 'fff', '#12', 'red']) if bad else t['header_color']))
+            hs.append(self.kw('headercolor:') + self.sp() + (self.rng.choice(['#ggg', '#ff', '# fff', 'fff', '#12', 'red', '#abcd', '#abcde', '#1234567', '#12345678', '#', '#ab cd']) if bad else t['header_color']))
         if note_in_settings:
             hs.append(self.kw('note:') + self.sp() + self.string(t['note']))
         if hs:
